@@ -426,6 +426,14 @@ func judgeTicker(c *vkit.Case, res *tickerResult, group string) bool {
 				r.Count("ticks", "received after Stop returned, stamped before (legitimate)", 1)
 			}
 		}
+		// drain, then silence: the 1-slot channel can hold at most one tick when Stop returns, so a
+		// second tick received after Stop was sent after Stop returned, whatever its timestamp
+		if len(after) >= 2 {
+			w := res.witness()
+			c.Violation("tick-sent-after-stop", fmt.Sprintf("%d ticks were received after Stop had returned (d=%s jitter=%s, watched %s); the channel holds one tick at most, so at least one was sent after Stop returned",
+				len(after), res.regimes[len(res.regimes)-1].D, res.regimes[len(res.regimes)-1].J, res.watch), w)
+			return true
+		}
 		r.Eval(1)
 		r.Count("ticker", "post-Stop watch completed", 1)
 		if res.heldAtStop > 0 {
